@@ -37,6 +37,7 @@ def required(tier):
         "hash_seeds": 4,
         "grammars.modular": 10,
         "grammars.with_priorities": 20,
+        "grammars.multi_revisit": 5,
     }
 
 
@@ -65,6 +66,65 @@ def gen_grammar(rng):
     return None
 
 
+def gen_fork_grammar(rng):
+    """Grammars biased towards what makes the GLR driver revisit several processed
+    heads for one new link: a reduce/reduce fork (two rules with the same terminal
+    alternative) and a nullable tail."""
+    from pgverif import cfg
+
+    for _ in range(100):
+        nt = rng.choice([4, 5, 6])
+        names = rng.sample(NAMES, rng.randint(3, 6))
+        chars = "abcdefgh"
+        tdefs = {n: cfg.TDef("str", chars[i]) for i, n in enumerate(names)}
+        nts = cfg.NT_NAMES[:nt]
+        prods = []
+        for n in nts:
+            for _ in range(rng.randint(1, 3)):
+                L = rng.choice([1, 1, 2, 2, 3])
+                prods.append((n, tuple(rng.choice(nts + names + names) for _ in range(L))))
+        a, b = rng.sample(nts[1:], 2)
+        t = (rng.choice(names),)
+        prods += [(a, t), (b, t), (rng.choice(nts[1:]), ())]
+        prods = list(dict.fromkeys(prods))
+        g = cfg.G(prods, "S", tdefs)
+        if g.ok() and not g.cyclic() and len(g.terms) >= 2:
+            return g
+    return None
+
+
+def search_multi_revisit(rng, mon, still_running, found, limit=40):
+    """Monitor-guided workload selection, run while the child interpreters work: keep
+    the grammars on which the GSS monitor saw one new link trigger the revisit of two
+    or more already processed heads - the situations in which a processing order
+    derived from hashing would show in the forest."""
+    from pgverif import cfg, glrobs, pgx
+
+    while still_running() and len(found) < limit:
+        g = gen_fork_grammar(rng)
+        if g is None:
+            continue
+        alph = "".join(g.tdefs[t].text for t in g.terms)[:3]
+        try:
+            p = pgx.glr(pgx.grammar(g.text()))
+        except Exception:  # noqa: BLE001
+            continue
+        hot = []
+        for w in cfg.all_strings(alph, 4):
+            if not cfg.Chart(g, w, skip=cfg.skip_none).is_sentence():
+                continue
+            try:
+                glrobs.parse_glr(p, w)
+            except Exception:  # noqa: BLE001
+                continue
+            if mon.c["multi_revisit"]:
+                hot.append(w)
+            if len(hot) >= 8:
+                break
+        if hot:
+            found.append({"grammar": g.text(), "inputs": hot, "multi_revisit": True})
+
+
 def gen_modular(rng):
     """Root importing two files that define terminals (and rules) with the same
     local names; both terminals become lookaheads of one reduction."""
@@ -87,8 +147,16 @@ def run(ctx):
     from pgverif import cfg, runner
 
     nproc = 4 if ctx.tier == "quick" else 16
+    from pgverif.mon.gss import GssMonitor
+
+    gmon = GssMonitor(check_closure=False)
+    gmon.install()
+    found = []
     while ctx.more():
         batch = []
+        while found and len([b for b in batch if b.get("multi_revisit")]) < 12:
+            batch.append(found.pop())
+            ctx.count("grammars.multi_revisit")
         for _ in range(12):
             g = gen_grammar(ctx.rng)
             if g is None:
@@ -119,6 +187,8 @@ def run(ctx):
             env["PYTHONHASHSEED"] = hs
             outp = os.path.join(tmpd, "out.%s.json" % hs)
             procs.append((hs, outp, subprocess.Popen([runner.PY, "-m", "pgverif.props.c16", os.path.join(tmpd, "batch.json"), outp], stdout=subprocess.DEVNULL, stderr=subprocess.DEVNULL, env=env, cwd=runner.ROOT)))
+        # while the children work: look for grammars for the next batch
+        search_multi_revisit(ctx.rng, gmon, lambda: any(p.poll() is None for _, _, p in procs), found)
         for hs, outp, p in procs:
             try:
                 p.wait(timeout=300)
